@@ -82,7 +82,7 @@ def run(ctx):
             ctx.violation('correspondence-broken', 'Version(%r): model %r, implementation %r' % (s, mm, impl),
                           {'component': 'Version.__init__/__str__', 'input': s, 'model': mm, 'impl': impl,
                            'python': 'from hszinc.version import Version; v=Version(%r); print(v.version_nums, v.version_extra, str(v))' % s})
-            return
+            return _impl_only(ctx, strs)
         ctx.count('parse:' + impl[0])
     for s in bad:
         if s in objs:
@@ -101,7 +101,7 @@ def run(ctx):
         if mr[0] != 'ok' or [list(r.version_nums), ['some', r.version_extra] if r.version_extra is not None else 'none'] != mr[1]:
             ctx.violation('correspondence-broken', 'nearest(%r): model %r, implementation %s' % (s, mr, r),
                           {'component': 'Version.nearest', 'input': s, 'model': mr, 'impl': str(r)})
-            return
+            return _impl_only(ctx, strs)
         # property: official, exact
         if not any(o == r for o in offs):
             ctx.violation('impl-counterexample', 'nearest(%r) = %s is not an official version' % (s, r),
@@ -154,6 +154,31 @@ def run(ctx):
     ctx.coverage['traces_validated_against_impl'] = n * n + len(strs) + len(bad)
     ctx.coverage['exhaustive'] = (tier == 'thorough')
     _strings_and_triples(ctx, rng, good, vs, near, tier)
+
+
+def _impl_only(ctx, strs):
+    """correspondence is broken: decide the property on the implementation alone"""
+    from hszinc.version import Version as V
+    good, vs = [], []
+    for s in strs:
+        try:
+            vs.append(V(s))
+            good.append(s)
+        except ValueError:
+            pass
+    hs = [hash(v) for v in vs]
+    near = {s: V.nearest(v) for s, v in zip(good, vs)}
+    from hszinc.version import OFFICIAL_VERSIONS
+    offs = list(OFFICIAL_VERSIONS)
+    for s, v in zip(good, vs):
+        r = near[s]
+        if not any(o == r for o in offs):
+            ctx.violation('impl-counterexample', 'nearest(%r) = %s is not an official version' % (s, r), {'input': s})
+            return
+        if any(o == v for o in offs) and not (r == v):
+            ctx.violation('impl-counterexample', 'nearest(%r) = %s although an equal official version exists' % (s, r), {'input': s})
+            return
+    _search_only(ctx, good, vs, hs, near)
 
 
 def _search_only(ctx, good, vs, hs, near):
